@@ -897,6 +897,9 @@ def async_part(job, r):
                 res = cv.run_reconnect_refused(how)
                 r.observe(('reconnect', how, res[0], res[1:3]))
                 r.count('reconnect_%s_%s' % (how, res[0]))
+                if getattr(sess, 'connect_blocked', 0):
+                    sess.connect_blocked = 0
+                    cv.viol('connect-blocks', 'the asynchronous client called connect() on a blocking socket for a peer that never answers: KSI_AsyncService_run sits in the kernel for minutes, the connect timeout of 5 s is not honoured', 'how=%s' % how)
                 if res[0] != 'returned' or res[1] != 5 or res[2] not in NET_ERRS:
                     cv.viol('reconnect-%s:request-not-failed' % how, 'after an established connection was closed by the peer the next connection attempt is %s: the waiting request should end with a network error within 12 runs (connect timeout 5 s, send timeout 3000 s), got %s' % (how, res), 'how=%s' % how)
             for how in ('refused', 'hanging'):
